@@ -26,29 +26,43 @@ pub fn term(p: &Program, t: &Term) -> String {
         Term::Wild => "_".to_string(),
         Term::App(f, args) => {
             let a: Vec<String> = args.iter().map(|a| term(p, a)).collect();
-            format!("{}({})", p.rels[*f].name, a.join(", "))
+            match p.rels[*f].kind {
+                RelKind::Dom(_) => format!("dom({})", a.join(", ")),
+                RelKind::Cod(_) => format!("cod({})", a.join(", ")),
+                _ => format!("{}({})", p.rels[*f].name, a.join(", ")),
+            }
         }
+    }
+}
+
+fn pred_atom(p: &Program, r: RelId, args: &[Term]) -> String {
+    let a: Vec<String> = args.iter().map(|a| term(p, a)).collect();
+    match p.rels[r].kind {
+        // member predicate: the model element is written in front
+        RelKind::Member(_) if !a.is_empty() => format!("{}.{}({})", a[0], p.rels[r].name, a[1..].join(", ")),
+        _ => format!("{}({})", p.rels[r].name, a.join(", ")),
+    }
+}
+
+fn type_name(p: &Program, t: TypeId) -> String {
+    match p.types[t].kind {
+        TypeKind::Mor(m) => format!("Mor({})", p.types[m].name),
+        _ => p.types[t].name.clone(),
     }
 }
 
 pub fn if_atom(p: &Program, a: &IfAtom) -> String {
     match a {
-        IfAtom::Pred(r, args) => {
-            let a: Vec<String> = args.iter().map(|a| term(p, a)).collect();
-            format!("{}({})", p.rels[*r].name, a.join(", "))
-        }
+        IfAtom::Pred(r, args) => pred_atom(p, *r, args),
         IfAtom::Eq(l, r) => format!("{} = {}", term(p, l), term(p, r)),
         IfAtom::Defined(t) => format!("{}!", term(p, t)),
-        IfAtom::Typed(t, ty) => format!("{}: {}", term(p, t), p.types[*ty].name),
+        IfAtom::Typed(t, ty) => format!("{}: {}", term(p, t), type_name(p, *ty)),
     }
 }
 
 pub fn then_atom(p: &Program, a: &ThenAtom) -> String {
     match a {
-        ThenAtom::Pred(r, args) => {
-            let a: Vec<String> = args.iter().map(|a| term(p, a)).collect();
-            format!("{}({})", p.rels[*r].name, a.join(", "))
-        }
+        ThenAtom::Pred(r, args) => pred_atom(p, *r, args),
         ThenAtom::Eq(l, r) => format!("{} = {}", term(p, l), term(p, r)),
         ThenAtom::Defined(None, t) => format!("{}!", term(p, t)),
         ThenAtom::Defined(Some(v), t) => format!("{} := {}!", v, term(p, t)),
@@ -142,14 +156,17 @@ impl<'a> Pr<'a> {
 
 pub fn rel_decl(p: &Program, r: RelId) -> String {
     let d = &p.rels[r];
-    let tys: Vec<&str> = d.arg_types().iter().map(|&t| p.types[t].name.as_str()).collect();
+    let tys: Vec<String> = d.arg_types().iter().map(|&t| type_name(p, t)).collect();
     match d.kind {
         RelKind::Pred => format!("pred {}({});", d.name, tys.join(", ")),
+        // inside its model declaration, without the model column
+        RelKind::Member(_) => format!("pred {}({});", d.name, tys[1..].join(", ")),
+        RelKind::Dom(_) | RelKind::Cod(_) => String::new(),
         RelKind::Func => format!(
             "func {}({}) -> {};",
             d.name,
             tys.join(", "),
-            p.types[d.result_type().unwrap()].name
+            type_name(p, d.result_type().unwrap())
         ),
         RelKind::Ctor(_) => format!("{}({})", d.name, tys.join(", ")),
     }
@@ -174,6 +191,16 @@ pub fn print_with(p: &Program, plain: bool) -> Printed {
                 TypeKind::Plain => {
                     let s = format!("type {};", p.types[t].name);
                     pr.emit_line(0, &s);
+                }
+                TypeKind::Mor(_) => {}
+                TypeKind::Model(members) => {
+                    let s = format!("model {} {{", p.types[t].name);
+                    pr.emit_line(0, &s);
+                    for m in members {
+                        let s = rel_decl(p, *m);
+                        pr.emit_line(1, &s);
+                    }
+                    pr.emit_line(0, "}");
                 }
                 TypeKind::Enum(ctors) => {
                     let s = format!("enum {} {{", p.types[t].name);
